@@ -13,6 +13,7 @@ import (
 const (
 	EvC2G      = "c2g"      // gateway read a datagram from the client
 	EvG2C      = "g2c"      // gateway wrote a datagram to the client
+	EvG2CErr   = "g2c-werr" // gateway tried to write a datagram to the client, the write failed
 	EvG2B      = "g2b"      // gateway wrote a complete MQTT packet to the broker
 	EvB2G      = "b2g"      // broker model sent an MQTT packet to the gateway
 	EvB2GRx    = "b2g-rx"   // gateway read bytes from the broker connection (not packetised)
@@ -134,6 +135,9 @@ func BuildView(r *Result) *View {
 			case dir == ">" && rec.Kind == "tx":
 				p, err := refsn.Decode(rec.B)
 				sv.Evs = append(sv.Evs, Ev{Idx: i, T: rec.T, Kind: EvG2C, Raw: rec.B, SN: p, SNErr: err})
+			case dir == ">" && rec.Kind == "tx-error":
+				p, err := refsn.Decode(rec.B)
+				sv.Evs = append(sv.Evs, Ev{Idx: i, T: rec.T, Kind: EvG2CErr, Raw: rec.B, SN: p, SNErr: err})
 			}
 		case strings.HasPrefix(ch, "gw.mq:"):
 			name, dir, _ := sessOf(ch, "gw.mq:")
